@@ -144,6 +144,10 @@ class MHistory:
             for _ in range(self.rng.choice([1, 1, 2, 3])):
                 kind = d.random_op()
                 integrity = integrity or kind == 'integrity'
+            if getattr(d, 'master_died', None):
+                self.ctx.count('histories_ended_master_died_between_operator_writes')
+                self.aborted = True
+                break
             if i in restart_at and self.rng.random() < 0.6:
                 # work piles up while no master runs: the new master's first cycle has to evict / move
                 for _ in range(self.rng.randint(1, 3)):
